@@ -23,7 +23,14 @@ animation raises KeyboardInterrupt after j characters (every kind of write: firs
 frames, cursor moves, clearing; j at 0, inside escape sequences / graphics payloads, at the end) or
 a sleep between two frames does; the model stream is model/DrawCut.v's, the oracle
 model/DrawCutTie.v's executable CutFinal (between two frames: the full final-state predicate
-against the last complete frame)."""
+against the last complete frame).
+
+Round 6.  Draws that TALK TO THE TERMINAL (props/c06_tty.py, impl/impl_c06_tty.py, model/DrawQuery.v,
+model/DrawQueryTie.v): every case in a fresh process (cold query caches, nothing stubbed) on a pty
+whose master side the harness plays as a terminal that ANSWERS the queries draw() makes (colours,
+name, cell size) at pipe-synchronised points of each exchange; the screen's stream is what the
+master received -- including whatever the line discipline echoed of the replies -- and is judged
+like every other draw."""
 from __future__ import annotations
 
 import sys
@@ -724,10 +731,16 @@ def run(ctx):
     hist["terminal_answers_queries"] = tty_res.get("hist", {})
     distinct |= tty_res.get("distinct", set())
     return {
-        "corr_name": "Draw.draw_stream / Draw.old_draw_stream, in the environment's terminal size (DrawEnv.get_terminal_size), and DrawCut.anim_cut / old_anim_cut for animations ended by KeyboardInterrupt (models) == bytes written by Renderable.draw / BaseImage.draw on a pty or StringIO",
+        "corr_name": "Draw.draw_stream / Draw.old_draw_stream, in the environment's terminal size (DrawEnv.get_terminal_size), DrawCut.anim_cut / old_anim_cut for animations ended by KeyboardInterrupt, and DrawQuery.screen of the draw's run with a terminal that answers its queries (models) == bytes written by Renderable.draw / BaseImage.draw on a pty or StringIO / bytes received by the master of the pty the draw runs on",
         "evaluations": len(cases) + len(tty_cases),
         "distinct_nontrivial": len(distinct),
-        "rule": "REAL-TERMINAL cases (the library's own get_terminal_size() on a pty whose window is set with TIOCSWINSZ, COLUMNS / LINES absent / equal / larger / smaller "
+        "rule": "DRAWS THAT TALK TO THE TERMINAL (fresh process per case, un-stubbed library, cold caches, stdin/stdout/stderr + active terminal on a pty found with ECHO on (mostly) or off, "
+                "the harness answers the draw's queries from terminal profiles xterm / kitty / VTE (BEL terminators, no XTVERSION) / wezterm / konsole / DA1-only / silent + C12's generated well-formed profiles, "
+                "each reply written in the WINDOW between the transmission of the request (tcdrain returned) and the library's next termios call, during the READ (after the next tcsetattr), SPLIT over both, or "
+                "IMMEDIATELY when the request is seen; window pixel size unknown (cell-size query) or known): corpus of old-API Block / Kitty <=0.25 and >0.25 / ITerm2 konsole and wezterm, still and animated, "
+                "new-API renderables whose render asks colours / name / cell size with echo_input True and False, standard output on the terminal or REDIRECTED to a pipe (the terminal's screen must then receive nothing), "
+                "+ random draws of both APIs; the master-side stream with the byte-exact requests taken out is lexed fail-closed and judged by DrawQueryTie.qcheck; "
+                "REAL-TERMINAL cases (the library's own get_terminal_size() on a pty whose window is set with TIOCSWINSZ, COLUMNS / LINES absent / equal / larger / smaller "
                 "/ only one / garbage / zero): grid of both APIs x {still, animated} x padded or rendered width / height at window-1, window, window+1 under each relation, "
                 "relative padding and pad_width / pad_height validation, + random draws of both APIs; ANIMATIONS ENDED BY KeyboardInterrupt: corpus of every write of a "
                 "3-frame animation (first frame, cursor moves, clearing, later frames) cut at 0 / the middle (inside SGR / CSI sequences, kitty key lists and payloads, iterm2 "
@@ -759,8 +772,10 @@ def run(ctx):
                         "terminal conventions of lib/Term.v and lib/TermScroll.v (images hanging below the window are kept and scroll into view)",
                         "real-terminal cases: the active terminal is the pty the driver opened (utils._tty_fd of a private copy of $VERIF_REPO's utils.py whose get_terminal_size is bound in every module that imported it by name); cell size, colours and terminal name stay the test-suite's stubs",
                         "interrupted animations: the interrupt is a KeyboardInterrupt raised by the k-th non-empty stream write of the animation after j characters were delivered, or by a sleep between two frames (positions between two bytecodes of other code are C07's asyncfault dimension); the instrumented renderable's _handle_interrupted_draw_ writes CSI 0 m (HndOK); the final row is judged on Term.exec's virtual rows (a clamped cursor-down at the bottom margin of a real screen is not modelled: the scrolling clause is demanded only when the cursor was found on its resting row after a complete first frame)",
+                        "draws that talk to the terminal: the terminal answers a request after it received it and before the read that waits for it returns (the library's query timeout is 100 s in these runs and never reached; a silent terminal is never written to); every reply sequence reaches the line discipline in one piece; the query requests (OSC 10 / 11 ?, XTVERSION, DA1, XTWINOPS 14 / 16, recognised byte for byte) draw nothing; the order of termios calls / write / read inside query_terminal is mirrored by hand in DrawQuery.query_terminal",
                         "the new API's documented residue (cursor not hidden, a cursor-move write cut inside its CSI, no cursor-down following) may leave an open CSI (C07's new_ctl_cut_residue); never an open string"],
-        "trusted": ["harness/lexer.py", "pty line discipline with OPOST off delivers the written bytes unchanged"],
+        "trusted": ["harness/lexer.py", "pty line discipline with OPOST off delivers the written bytes unchanged",
+                    "the kernel's tty line discipline (ECHO / ECHOCTL of a pty) is the terminal-side echo the model's DrawQuery.echo_text describes"],
         "extra": {"seconds_impl": round(t_impl, 1), "seconds_coq_eval": round(t_coq, 1),
                   "seconds_tty_family_impl": tty_res.get("seconds_impl"), "seconds_tty_family_coq_eval": tty_res.get("seconds_coq")},
     }
